@@ -6,6 +6,9 @@ import (
 	"time"
 )
 
+// NowStepNS is how much virtual time every Now() call consumes (distinct, ordered timestamps).
+var NowStepNS int64 = 1000
+
 var baseTime = time.Date(2026, 1, 1, 0, 0, 0, 0, time.UTC)
 
 type timerEnt struct {
@@ -91,7 +94,7 @@ func Now() time.Time {
 	if x == nil || x.finished {
 		return time.Now()
 	}
-	x.clockNS += 1000
+	x.clockNS += NowStepNS
 	return baseTime.Add(time.Duration(x.clockNS))
 }
 
